@@ -99,3 +99,11 @@ Section Plain.
     apply crash_view_refl. apply sync_ok_run. exact Hs.
   Qed.
 End Plain.
+
+(* saving the EMPTY data over an existing file (all pairings removed): the temp+rename procedure
+   replaces the file; interrupted it shows the old data, completed it shows the empty data *)
+Lemma atomic_to_empty :
+  concat [[0%N]] = ToyCodec.print [] /\
+  map (fun n => tload (crash_after n (save_atomic 7%N 2%N 1%N [[0%N]]) st0) 1%N) (seq 0 7)
+  = [Loaded D0; Loaded D0; Loaded D0; Loaded D0; Loaded D0; Loaded []; Loaded []].
+Proof. split; vm_compute; reflexivity. Qed.
